@@ -6,6 +6,7 @@ import (
 	"io"
 	"net"
 	"net/http"
+	"syscall"
 	"time"
 
 	pt "gitlab.torproject.org/tpo/anti-censorship/pluggable-transports/goptlib"
@@ -153,6 +154,10 @@ func runC16(c *harness.Ctx) {
 	lat := []time.Duration{0, 0, time.Millisecond, 30 * time.Millisecond}[t.Draw("lat", 4)]
 	dials := 0
 	dialFn := func(network, addr string) (net.Conn, error) {
+		if ending {
+			// the run is over: a transport that is still polling gets no new connection
+			return nil, &net.OpError{Op: "dial", Net: "tcp", Err: syscall.ECONNREFUSED}
+		}
 		dials++
 		name := fmt.Sprintf("h%d", dials)
 		l := c.Net.NewLink("c", name)
@@ -276,6 +281,9 @@ func runC16(c *harness.Ctx) {
 	c.Nontrivial = upTotal > 0 || srv.downTotal > 0
 	if c.S.Violated() {
 		ending = true
+		if conn != nil {
+			conn.Close()
+		}
 		return
 	}
 	if closeAt < 0 {
@@ -320,4 +328,7 @@ func runC16(c *harness.Ctx) {
 	_ = wrErr
 	_ = rdErr
 	ending = true
+	if conn != nil {
+		conn.Close()
+	}
 }
